@@ -132,6 +132,8 @@ def run(ctx):
             ctx.violation(RC, k + "|tagless", "the tagged deserialise template does not rebuild the sender id with MemberId::<#c_type>::from_tagless(id ..)", "%s:%s" % (NETFILE, m["line"]))
     if codec_s != codec_d or len(codec_s) != 1:
         ctx.violation(RC, "hydro_lang|codec-pair", "serialise templates use codec module(s) %s but deserialise templates use %s" % (sorted(codec_s), sorted(codec_d)), NETFILE)
+    unordered_rule(ctx)
+
 
 
 def _root_param(b, local, depth=0):
@@ -148,3 +150,45 @@ def _root_param(b, local, depth=0):
         if isinstance(p, int):
             return _root_param(b, p, depth + 1)
     return None
+
+
+def unordered_rule(ctx):
+    """Member / port ids of a demux connection are attached to the connection futures *before* they are raced: `FuturesUnordered` yields in completion order, so a
+    collection of un-keyed results (a `Vec<Conn>`) must never be re-associated with keys by position (zip / enumerate / indexing). Keyed results (tuples) and
+    order-insensitive targets (maps) are fine; an un-keyed Vec is fine as long as nothing positional touches it (the `Merge` case)."""
+    R = ctx.rule("C35.unordered", "results raced through FuturesUnordered in the deploy integration keep their id: un-keyed result vectors are never zipped / enumerated / indexed", floor=4)
+    c = mir.load_crate("hydro_deploy_integration")
+    n = 0
+    for d, b in sorted(c.bodies.items()):
+        if c.is_test_path(d):
+            continue
+        unkeyed = []
+        for bb, t in b.calls():
+            f = t.get("f") or {}
+            if f.get("name") != "collect" or "FuturesUnordered" not in (f.get("self") or ""):
+                continue
+            target = (f.get("args") or [""])[-1]
+            n += 1
+            key = "hydro_deploy_integration|%s|collect#%d" % (fn_key(c, b), n)
+            m = re.match(r"^alloc::vec::Vec<(.*), alloc::alloc::Global>$", target)
+            keyed = bool(m and m.group(1).startswith("("))
+            is_map = "BTreeMap<" in target or "HashMap<" in target
+            ctx.inst(R, key, sample={"into": target[:100], "keyed": keyed or is_map})
+            if m and not keyed:
+                unkeyed.append((bb, m.group(1)))
+            elif not m and not is_map:
+                ctx.violation(R, "hydro_deploy_integration|%s|unordered-into-%s" % (fn_key(c, b), target.split("<")[0].split("::")[-1]), "results of a FuturesUnordered are collected into `%s`: "
+                              "neither keyed nor an order-insensitive map" % target[:80], b.loc(bb))
+        for bb0, elem in unkeyed:
+            for bb, t in b.calls():
+                f = t.get("f") or {}
+                if f.get("name") not in ("zip", "enumerate", "index", "index_mut", "get", "get_mut", "swap_remove", "remove"):
+                    continue
+                tys = [(f.get("self") or "")] + list(f.get("args") or [])
+                for a in t.get("a", []):
+                    pp = op_place(a)
+                    if pp is not None:
+                        tys.append(b.locals[pl_local(pp)])
+                if any(("Vec<%s" % elem) in x or ("IntoIter<%s" % elem) in x or ("[%s]" % elem) in x for x in tys):
+                    ctx.violation(R, "hydro_deploy_integration|%s|positional-%s" % (fn_key(c, b), f.get("name")), "a vector of un-keyed results raced through FuturesUnordered (`Vec<%s>`, completion "
+                                  "order) is associated with positions by `%s`: ids and connections can be paired wrongly" % (elem.split("::")[-1], f.get("name")), b.loc(bb))
